@@ -316,7 +316,13 @@ def _part_cfl(case):
                         cls = "uniform-detected" if g.is_uniform else "non-uniform"
                         oc[cls] = oc.get(cls, 0) + 1
                         if not (dt > 0 and excess <= TOL):
-                            sig = f"cfl:dt-exceeds-the-bound:{cls}:{'rounded-uniform-spacing' if g.is_uniform else 'general'}"
+                            # name the class: does the excess equal what rounding the first cell width to 14 decimals predicts?
+                            why = "general"
+                            if g.is_uniform:
+                                w0 = float(np.diff(es[0])[0])
+                                pred = (cf / math.sqrt(3.0)) * round(w0, 14) / C0
+                                why = "spacing-rounded-to-14-decimals" if abs(dt / pred - 1.0) <= 1e-12 else "other"
+                            sig = f"cfl:dt-exceeds-the-bound:{cls}:{why}"
                             fails.append(dict(sig=sig, detail=dict(kinds=[kind, k2, k3], n=n, courant_factor=cf, where=where, dt=dt, bound=bound, rel_excess=excess, min_spacings=dmin, uniform_spacing=(g.uniform_spacing if g.is_uniform else None))))
                         # not absurdly conservative either: a uniform grid must use the full bound
                         if g.is_uniform and excess < -1e-3:
@@ -338,7 +344,9 @@ def _part_cfl(case):
             dt2 = fdtdx.SimulationConfig(time=100 * sp / C0, grid=rg, backend="cpu", courant_factor=cf).time_step_duration
             evals += 1
             if abs(dt2 / dt - 1) > TOL:
-                fails.append(dict(sig="cfl:resolved-uniform-grid-gives-another-time-step-than-its-policy", detail=dict(spacing=sp, cf=cf, policy_dt=dt, resolved_dt=dt2, rel=dt2 / dt - 1)))
+                pred = cf / math.sqrt(3.0) * round(float(np.diff(np.asarray(rg.x_edges))[0]), 14) / C0
+                why = "spacing-rounded-to-14-decimals" if abs(dt2 / pred - 1.0) <= 1e-12 else "other"
+                fails.append(dict(sig=f"cfl:resolved-uniform-grid-gives-another-time-step-than-its-policy:{why}", detail=dict(spacing=sp, cf=cf, policy_dt=dt, resolved_dt=dt2, rel=dt2 / dt - 1)))
         for d3 in ((sp, sp, sp), (sp, 2 * sp, 0.5 * sp)):
             cfg = fdtdx.SimulationConfig(time=1e-13, grid=fdtdx.QuasiUniformGrid(dx=d3[0], dy=d3[1], dz=d3[2]), backend="cpu", courant_factor=0.99)
             dt = cfg.time_step_duration
@@ -390,7 +398,8 @@ def _part_uniform(case):
                         if want:
                             us = g.uniform_spacing
                             if abs(us / sp - 1) > max(TOL, 1e-12 + 16 * np.finfo(np.float64).eps * abs(off) / sp):
-                                fails.append(dict(sig="uniform:uniform_spacing-differs-from-the-spacing", detail=dict(meta, got=us, rel=us / sp - 1)))
+                                why = "rounded-to-14-decimals" if us == round(float(np.diff(es[0])[0]), 14) else "other"
+                                fails.append(dict(sig=f"uniform:uniform_spacing-differs-from-the-spacing:{why}", detail=dict(meta, got=us, rel=us / sp - 1)))
                         else:
                             try:
                                 g.uniform_spacing
